@@ -200,7 +200,7 @@ float apply_linear_float(float bitfield, float scale, float offset) {
  *  @param length Size of the number
  */
 int64_t bitfield_sign_conv(uint64_t bitfield, uint8_t length) {
-    if (get_bit(bitfield, (length - 1))) {
+    if (length < 64 && (get_bit(bitfield, (length - 1)))) {
         return (int64_t)((0xFFFFFFFFFFFFFFFFUL << length) | (bitfield));
     } else {
         return (int64_t)bitfield;
@@ -308,7 +308,7 @@ uint64_t can_encode_signal_from_float(float signal, uint32_t start, uint32_t len
 
 int64_t can_decode_signal_as_int64_t(const CanFrame *msg, uint32_t start, uint32_t length,
                                      float scale, float offset, bool is_big_endian) {
-    int64_t bitfield = get_bitfield(can_word(msg), start, length);
+    int64_t bitfield = bitfield_sign_conv(get_bitfield(can_word(msg), start, length), length);
     if (is_big_endian) bitfield = swap_bytes_int(bitfield, I64);
 
     return apply_linear_int64_t(bitfield, scale, offset);
